@@ -356,6 +356,7 @@ func runC01(c *core.Ctx) {
 		c.Floor("R01.5", "success returns of NewFreshBowl", n, 1)
 	}
 	ruleCodecPairing(c, "R13.3")
+	ruleCopyWritesWhatItRead(c, "R01.6")
 }
 
 // ruleFraming: R01.3 / R07.2 writer-side framing in WritePatch and Optimize.
@@ -520,4 +521,47 @@ func ruleFraming(c *core.Ctx, rule string, opT, shT map[string]int64) {
 			}
 		}
 	}
+}
+
+// ruleCopyWritesWhatItRead (R01.6, shared with C15): the copy loop that feeds the differ and the signer
+// (ctxcopy, behind multiread) must hand on the bytes of every Read before it acts on end-of-stream: a
+// reader may return its last bytes together with io.EOF. Every path from the Read to a success return
+// passes a Write of the buffer cut at the count read.
+func ruleCopyWritesWhatItRead(c *core.Ctx, rule string) {
+	c.Rule(rule, "the fan-out copy writes what it read before it acts on end-of-stream")
+	n := 0
+	for _, fn := range c.P.SrcFuncs() {
+		if !strings.HasSuffix(core.PkgPathOf(fn), "/ctxcopy") {
+			continue
+		}
+		core.Instrs(fn, func(in ssa.Instruction) {
+			rd, ok := in.(*ssa.Call)
+			if !ok || !rd.Call.IsInvoke() || rd.Call.Method.Name() != "Read" || len(rd.Call.Args) != 1 {
+				return
+			}
+			buf := rd.Call.Args[0]
+			isWrite := func(x ssa.Instruction) bool {
+				w, ok := x.(*ssa.Call)
+				if !ok || !w.Call.IsInvoke() || w.Call.Method.Name() != "Write" || len(w.Call.Args) != 1 {
+					return false
+				}
+				for _, o := range core.Origins(w.Call.Args[0]) {
+					if sl, ok := o.(*ssa.Slice); ok && sl.High != nil && (sameVal(sl.X, buf) || sameExpr(sl.X, buf)) && extractOf(sl.High, rd, 0) {
+						return true
+					}
+				}
+				return false
+			}
+			if firstInstr(fn, isWrite) == nil {
+				return
+			}
+			n++
+			for _, rs := range successReturns(fn) {
+				p := core.FindPath(fn, in, isInstr(rs.Ret), isWrite)
+				c.Check(p == nil, rule, core.FnName(fn), "bytes read are written before the copy ends successfully", core.InstrPos(rs.Ret),
+					"every path from the Read to this success return writes buf[:n]", "the copy can end successfully after a Read whose bytes were not written (a reader that returns its last bytes together with io.EOF): the tail of every file fed through it is silently dropped").Path = c.P.PathStrings(p)
+			}
+		})
+	}
+	c.Floor(rule, "read-then-write copy loops in ctxcopy", n, 1)
 }
